@@ -126,6 +126,28 @@ theorem better_some_lt {α : Type} (x y : α) (r1 r2 : Txt) (h : r2.length < r1.
 
 @[simp] theorem wordEnd_none {α : Type} : wordEnd (none : Res α) = none := rfl
 
+/-- the grammar has the word end behind the shift operator (regenerated constant) -/
+theorem shiftWordEnd_on : A64.shiftWordEnd = true := by decide
+
+/-- the shift operator of `register` / `arith_immediate`: one of the keywords, as a complete word -/
+theorem shiftOp_eq (s : Txt) : shiftOp s = wordEnd (clitOr true A64.shiftOps s) := by
+  simp [shiftOp, shiftWordEnd_on]
+
+theorem shiftOp_none_of_clitOr (s : Txt) (h : clitOr true A64.shiftOps s = none) : shiftOp s = none := by
+  rw [shiftOp_eq, h]; rfl
+
+/-- a keyword that is followed by a word character is not a shift operator -/
+theorem wordEnd_wordChar {α : Type} (x : α) (c : Nat) (r : Txt) (h : isWordEndC c = true) :
+    wordEnd (some (x, c :: r)) = none := by
+  simp [wordEnd, h]
+
+/-- a keyword that is not followed by a word character stays -/
+theorem wordEnd_stop {α : Type} (x : α) (rest : Txt) (h : ∀ c r, rest = c :: r → isWordEndC c = false) :
+    wordEnd (some (x, rest)) = some (x, rest) := by
+  cases rest with
+  | nil => rfl
+  | cons c r => simp [wordEnd, h c r rfl]
+
 /-! ### character classes, `Follow`, alternatives over literal lists -/
 theorem scalarPrefix_alpha (c : Nat) (h : isScalarPrefixC c = true) : isAlphaC c = true := by
   simp [isScalarPrefixC, A64.scalarPrefixes] at h
